@@ -35,9 +35,11 @@ Definition run_okb (i : input) (r : runobs) : bool :=
   && Nat.eqb (r_left r) 0
   && same_attrs (r_attrs r) (i_attrs i).
 
+(* the second run repeats the sequence of bodies and undo actions (the values the undo actions
+   write are pinned by the attribute clause of each run) and the outcome *)
 Definition spec_okb (i : input) (o : obs) : bool :=
   run_okb i (o_first o) && run_okb i (o_second o)
-  && list_eqb lev_eqb (r_log (o_second o)) (r_log (o_first o))
+  && list_eqb lsh_eqb (map shape (r_log (o_second o))) (map shape (r_log (o_first o)))
   && list_eqb outcome_eqb (r_outs (o_second o)) (r_outs (o_first o)).
 
 Definition Run_spec (i : input) (r : runobs) : Prop :=
@@ -47,6 +49,7 @@ Definition Run_spec (i : input) (r : runobs) : Prop :=
 
 Definition Spec (i : input) (o : obs) : Prop :=
   Run_spec i (o_first o) /\ Run_spec i (o_second o)
-  /\ r_log (o_second o) = r_log (o_first o) /\ r_outs (o_second o) = r_outs (o_first o).
+  /\ map shape (r_log (o_second o)) = map shape (r_log (o_first o))
+  /\ r_outs (o_second o) = r_outs (o_first o).
 
 Definition findings (i : input) : list nat := [].
